@@ -87,6 +87,24 @@ CHECKS = {
    text="STMesh supplies every mesh reachable within a primitive-bisection budget from each closed curve's initial mesh (not a sample); each is rebuilt by real bisections, assembled with "
         "bilform_matrix and lambda_min(D^-1/2 (A+A^T)/2 D^-1/2) is quantised; TLC demands > 0.01 for every mesh, for the 4x4 child blocks of the hierarchical estimator and for larger random meshes.",
    note="Exhaustive within the listed budgets (flagged if capped). Trusted: numpy.linalg.eigvalsh."),
+ "C05": dict(level="exploration", design="§5 C05", engine="rules",
+   technique="registry extracted from the source text into RulesData.tla; Rules.tla facts model-checked by TLC; every obligation <<family,key,part,degree>> measured at 80 digits / in double and judged by TLC (TraceRules) with TLC-computed completeness",
+   text="The if/elif chains of the seven rule functions and the exported key lists are extracted with Python's ast on every run into RulesData.tla; TLC checks that every key returns, node and weight counts "
+        "match, every exported pair is available and every constructor request lands on a returning key; the obligations defined by Rules.tla (all monomial degrees of every advertised part of every rule) are "
+        "measured on the literals as written (1e-30) and on the returned doubles (1e-13) together with nodes-in-(0,1) / one-sign flags; TLC judges each record and lists obligations never exercised. The space is finite and enumerated completely.",
+   note="80-digit mpmath arithmetic instead of interval arithmetic (rounding ~1e-78). Known findings: literals of gauss_log keys 15 and 31."),
+ "C15": dict(level="exploration", design="§5 C15", engine="rules",
+   technique="term language and degree calculus of Schemes.tla enumerated by TLC; every term built with the real constructors and every monomial up to the calculus' degree judged by TLC (TraceSchemes)",
+   text="Schemes.tla enumerates all derived-scheme terms (mirror, tensor products, 2-D Duffy symmetric/non-symmetric, 3-D identical/touch Duffy, mirrors in every coordinate) over the base rules with deg(Product)=min, "
+        "deg(Duffy2)=deg-1, deg(Duffy3)=deg-2; each term is built, mapped to a random box with side lengths in [1e-4,1e3], its weight sum and every monomial of admissible total degree compared with the exact value; "
+        "TLC recomputes dimension/degree from the term, judges deviations and counts unexercised (term, monomial) pairs; laws mirror-twice, symmetric-vs-non-symmetric, convergence on log|x-y|.",
+   note="Measure clause read for terms of degree >= 0 (constants are polynomials of degree 0). Quick tier uses a subset of base rules; thorough all unweighted tabulated rules."),
+ "C14": dict(level="exploration", design="§5 C14", engine="rules",
+   technique="orders/keys from Rules.tla; exact rational closed forms for polynomial Slobodeckij integrals; records judged by TLC (TraceSlobo) with TLC-computed case coverage",
+   text="For every order 1..23 (H^{1/4}) and 1..21 (H^{1/2}) and every degree <= (N-1)/2, random rational polynomials on random intervals (1e-3..1e3) are compared with exact closed forms (1e-12); laws "
+        "non-negativity, zero on constants, quadratic scaling, translation invariance; curve-aware == flat on rigid placements; the corner configuration against a graded reference. TLC computes which orders "
+        "exist from the extracted registry and reports cases never exercised.",
+   note="Polynomials given in the interval's affine coordinate (conditioning). Corner clause at order 21, right angles, length ratio <= 2, tolerance 1e-9 (spectral convergence)."),
 }
 
 NOT_YET = {}
@@ -127,6 +145,8 @@ def main():
              "kind_free_text": "TLA+ specification of the space-time mesh; TLC exhaustive + trace judge (spec/trace/TraceSTMesh.tla)"},
             {"name": "panels", "path": "/verif/spec/Panels.tla", "serves_properties": ["C01", "C04", "C11", "C12", "C13", "C07"],
              "kind_free_text": "TLA+ skeleton of the single-layer operator (causality, panel recursion, classes); judge spec/trace/TracePanels.tla; oracle harness/oracles/heat_ref.py"},
+            {"name": "rules", "path": "/verif/spec/Rules.tla", "serves_properties": ["C05", "C14", "C15"],
+             "kind_free_text": "rule registry extracted from source (RulesData.tla), scheme algebra (Schemes.tla), judges TraceRules / TraceSchemes / TraceSlobo; oracles: mpmath moments, rational closed forms"},
             {"name": "assembly", "path": "/verif/spec/Assembly.tla", "serves_properties": ["C17"],
              "kind_free_text": "TLA+ model of the assembly paths / pool / cache; behaviours replayed on real files and pools; judge spec/trace/TraceAssembly.tla"},
             {"name": "paraminit", "path": "/verif/spec/ParamInit.tla", "serves_properties": ["C18"],
